@@ -953,6 +953,7 @@ impl World {
             // keep removed objects of the old device alive inside mems (C02)
             self.parties[q] = np;
             self.mem(q, g).status = Status::Never;
+            self.mem(q, g).durable = Default::default();
             self.stats.probe("rejoin-new-device");
         } else if st == Status::Removed {
             self.stats.probe("rejoin-same-storage");
@@ -1232,7 +1233,13 @@ impl World {
         let msg = self.msgs[&cid].clone();
         let prop = self.cfg.property.clone();
         // reliable DS: make sure referenced proposals have been seen
-        if !self.cfg.fault("missing-proposal") {
+        let withhold = self.cfg.fault("missing-proposal")
+            && mix(&[self.seed, self.step_no as u64, 0x3155]) % 3 == 0
+            && msg.refs.iter().any(|r| !self.parties[p].mems[g].cached.contains(r) && self.msgs[r].sender != p);
+        if withhold {
+            self.stats.fault("N-MISSING-PROPOSAL");
+        }
+        if !withhold {
             let missing: Vec<u64> = msg
                 .refs
                 .iter()
